@@ -632,6 +632,7 @@ func typedRewrites(fset *token.FileSet, f *ast.File, info *types.Info, ed *edito
 									ed.replace(off(se.Pos()), off(se.Sel.Pos()), rtImportName+".")
 									keepImport[text(se.X)] = "time.Now"
 								case "NewTimer", "NewTicker", "AfterFunc", "Tick":
+									pkgRealTime = true
 									report.ChanOps = append(report.ChanOps, where(x)+" time."+fn.Name()+" (real time: not simulated)")
 								}
 							case "math/rand":
@@ -640,6 +641,12 @@ func typedRewrites(fset *token.FileSet, f *ast.File, info *types.Info, ed *edito
 									report.SyncSites = append(report.SyncSites, where(x)+" rand."+fn.Name())
 									ed.replace(off(se.Pos()), off(se.Sel.Pos()), rtImportName+".Rand().")
 									keepImport[text(se.X)] = "rand.Intn"
+								}
+							case "context":
+								switch fn.Name() {
+								case "WithTimeout", "WithDeadline":
+									pkgRealTime = true
+									report.ChanOps = append(report.ChanOps, where(x)+" context."+fn.Name()+" (real time: not simulated)")
 								}
 							case "crypto/rand", "math/rand/v2":
 								report.ChanOps = append(report.ChanOps, where(x)+" "+fn.Pkg().Path()+"."+fn.Name()+" (randomness outside the seam)")
@@ -968,6 +975,11 @@ func insertYields(fset *token.FileSet, f *ast.File, ed *editor, fn, root, pkg st
 // ones without initialiser, and re-runs init functions.
 var pkgHasSelect bool
 
+// pkgRealTime: the library arms real timers (time.NewTimer/Ticker/AfterFunc, context
+// deadlines). A client polling for such a timer is not deadlocked, real time just has
+// not passed yet: the deadlock detector then waits in real time instead of concluding.
+var pkgRealTime bool
+
 func writeReset(dir, pkgName string, files []string, final map[string][]byte, inits []initRec) {
 	fset := token.NewFileSet()
 	type specInfo struct {
@@ -1120,6 +1132,9 @@ func writeReset(dir, pkgName string, files []string, final map[string][]byte, in
 	}
 	if pkgHasSelect {
 		b.WriteString("\t" + rtImportName + ".HasSelect = true\n")
+	}
+	if pkgRealTime {
+		b.WriteString("\t" + rtImportName + ".RealTimers = true\n")
 	}
 	b.WriteString("\t" + rtImportName + ".RegisterReset(zzVerifResetGlobals)\n}\n\n")
 	b.WriteString("func zzVerifResetGlobals() {\n")
@@ -1330,6 +1345,9 @@ func pendReset() { pendTab = [64]pendEnt{} }
 // lose control (exit 2), which is honest; a polling select that never sees a parked value
 // would be a false "no-return".
 var HasSelect bool
+
+// RealTimers is set when an instrumented package arms real timers (see instr).
+var RealTimers bool
 
 // Send replaces ch <- v.
 func Send(ch interface{}, v interface{}) {
